@@ -28,7 +28,7 @@ BUDGET = {
 def cases(draw, exclude: frozenset = frozenset()):
 	from vf import project as P
 	rnd = draw(st.randoms(use_true_random=False))
-	gname = rnd.choice(['pair', 'chain', 'chain', 'diamond', 'chain4'])
+	gname = rnd.choice(['pair', 'chain', 'chain', 'diamond', 'chain4', 'twins', 'twins'])
 	graph = P.GRAPHS[gname]
 	mods = sorted(graph)
 	ops = []
@@ -39,7 +39,11 @@ def cases(draw, exclude: frozenset = frozenset()):
 		if 'transitive-visible-edit' in exclude and P.dependents(graph, m) - {x for x in graph if m in graph[x]}:
 			visible = 0  # known finding: keep edits of modules with indirect dependents invisible
 		ops.append([k, m, visible, rnd.randint(1, 3), rnd.randint(0, 10 ** 6), rnd.choice(['0', '1', 'half', 'last'])])
-	if rnd.random() < 0.35:
+	if gname == 'twins':
+		# the two imported modules exchange their contents between two runs (both files are edited)
+		v1, v2 = rnd.sample([0, 1, 2], 2)
+		ops = [['edit', 'me', v1, 1, 0, '0'], ['edit', 'mf', v2, 1, 0, '0'], ['run', 'mg', 0, 1, 0, '0'], ['edit', 'me', v2, 1, 0, '0'], ['edit', 'mf', v1, 1, 0, '0'], ['run', 'mg', 0, 1, 0, '0']] + ops[:4]
+	elif rnd.random() < 0.35:
 		# an mtime that comes back: content X at T1, run, content Y at T2, run, content Z at T1 again, run
 		m = rnd.choice(mods)
 		vis = [0 if ('transitive-visible-edit' in exclude and P.dependents(graph, m) - {x for x in graph if m in graph[x]}) else rnd.randint(0, P.VISIBLE[m] - 1) for _ in range(2)]
